@@ -1,6 +1,10 @@
 package gen
 
-import "pgregory.net/rapid"
+import (
+	"bytes"
+
+	"pgregory.net/rapid"
+)
 
 // HTMLFrags are raw-HTML-heavy fragments: comments in every abrupt form,
 // CDATA, declarations, processing instructions, stray '<', mixed-case and
@@ -20,7 +24,17 @@ func HTMLSoup() *rapid.Generator[[]byte] {
 		n := rapid.IntRange(1, 14).Draw(t, "n")
 		var out []byte
 		for i := 0; i < n; i++ {
-			out = append(out, HTMLFrags[rapid.IntRange(0, len(HTMLFrags)-1).Draw(t, "hf")]...)
+			k := rapid.IntRange(0, len(HTMLFrags)+1).Draw(t, "hf")
+			if k >= len(HTMLFrags) {
+				// a tag with a name of drawn length (open, closing, or unfinished)
+				l := rapid.IntRange(1, 80).Draw(t, "namelen")
+				name := bytes.Repeat([]byte{"aSx-"[rapid.IntRange(0, 2).Draw(t, "namech")]}, l)
+				out = append(out, []string{"<", "</", "<"}[rapid.IntRange(0, 2).Draw(t, "open")]...)
+				out = append(out, name...)
+				out = append(out, []string{">", " x>", "\n", "<"}[rapid.IntRange(0, 3).Draw(t, "close")]...)
+				continue
+			}
+			out = append(out, HTMLFrags[k]...)
 		}
 		return out
 	})
